@@ -174,6 +174,18 @@ CLAIMED['C03'] = (
     'non-positive; never negative; the right coefficients are requested.',
     'line shape and integrator are recording stubs (C02 / quadrature error outside); one evaluation point per run.',
     'DESIGN.md §4 C03', TECH)
+CLAIMED['C05'] = (
+    'BeamCXLine (1-2 beam metastables quick, 3 thorough) and BeamEmissionLine (translated) are executed on a composition of '
+    'C6+, C5+, He2+, H+ and a neutral with null coefficients; beam energy / density, ion densities, temperatures, flow '
+    'velocities, B vector, total ion density and Z_eff symbolic, coefficients non-negative uninterpreted functions tagged '
+    'by the request. z3 proves radiance = (1/4pi) n_b n_rec q with q = (q_1 + sum k_i q_i)/(1 + sum k_i), every q_i evaluated '
+    'at (E_int, T_rec, total ion density, Z_eff, |B|), k_i the charge-density-weighted mean of the population coefficients '
+    'at (E_int,i , sum Z^2 n / Z_i , T_i), min q_i <= q <= max q_i; beam emission = (1/4pi) n_b sum Z_i n_i q_i(...); both '
+    'vanish exactly where the beam or receiver density is zero; Plasma.z_effective = sum n Z^2 / sum n Z and ion_density as '
+    'documented.',
+    'line shapes are recording stubs; sqrt as root variable; the beam points along +z (flow velocities symbolic); '
+    'cdivision by the neutral charge 0 keeps z3 total division (its value is multiplied by 0).',
+    'DESIGN.md §4 C05', TECH)
 NOT_YET = {}
 props = [json.loads(l) for l in open(os.path.join(HERE, 'properties.jsonl'))]
 checks, na = [], []
